@@ -238,22 +238,28 @@ def translate(chk: Check) -> str:
     if hs_txt == HS_OLD:
         single_row = []  # unrepaired variant: allAgg or limit1 or noFrom
     elif hs_txt.startswith(HS_NEW_HEAD):
-        rest = hs_txt[len(HS_NEW_HEAD):]
-        mm = re.fullmatch(r"(?:if (?P<g>[^\n]*):\n    return False\n)?if not expression\.args\.get\('from_'\):\n    return True\n"
-                          r"return (?P<ng>not expression\.args\.get\('group'\) and )?all\(\(isinstance\(e\.unalias\(\), exp\.AggFunc\) for e in expression\.selects\)\)", rest)
-        if not mm:
-            changed("_has_single_output_row: unrecognised body")
-        else:
-            for d in (mm.group("g") or "").split(" or ") if mm.group("g") else []:
-                d = d.strip("()")
+        stmts = [st for st in hs.body if not (isinstance(st, ast.Expr) and isinstance(st.value, ast.Constant))][3:]
+        ok_hs = True
+        if stmts and isinstance(stmts[0], ast.If) and ast.unparse(stmts[0].body[0]) == "return False" and len(stmts) == 3:
+            for d in _conj(stmts[0].test, ast.Or):
                 if d == "expression.args.get('having')":
                     single_row.append(".noHaving")
-                elif d in ("expression.args.get('where') and (not expression.args.get('from_'))", "expression.args.get('where') and not expression.args.get('from_')"):
+                elif d == "expression.args.get('where') and (not expression.args.get('from_'))":
                     single_row.append(".noFromlessWhere")
                 else:
                     changed(f"_has_single_output_row: unknown rejecting disjunct: {d}")
-            if mm.group("ng"):
+            stmts = stmts[1:]
+        if len(stmts) == 2 and ast.unparse(stmts[0]) == "if not expression.args.get('from_'):\n    return True" and isinstance(stmts[1], ast.Return):
+            AGG = "all((isinstance(e.unalias(), exp.AggFunc) for e in expression.selects))"
+            r = ast.unparse(stmts[1].value)
+            if r == "not expression.args.get('group') and " + AGG:
                 single_row.append(".noGroup")
+            elif r != AGG:
+                ok_hs = False
+        else:
+            ok_hs = False
+        if not ok_hs:
+            changed("_has_single_output_row: unrecognised body")
     else:
         changed("_has_single_output_row: unrecognised body")
     chk.cov["has_single_output_row_guards"] = single_row
